@@ -61,6 +61,20 @@ def bin_path(name):
     return os.path.join(H_DIR, 'bin', name)
 
 
+MAXI = (1 << 63) - 1
+MINI = -(1 << 63)
+
+
+def ss_ok(a, b, s, n):
+    """The hypotheses of the Coq theorems on [start, stop, step] for an axis of extent n (IO.HyperslabProofs.ss_ok): Go ints,
+    start >= 0, step >= 1, n + step <= 2^63 (extent + step - 1 cannot overflow), MinInt64 + n <= stop (MaxInt64 included)."""
+    return 0 <= a <= MAXI and s >= 1 and n >= 0 and n + s <= (1 << 63) and MINI + n <= b <= MAXI
+
+
+def extreme_stop(rng, n, s=1):
+    return rng.choice([MAXI, MAXI - 1, MAXI - s, 1 << 62, 1 << 31, (1 << 32) - 1, (1 << 32) + 1, n + (1 << 40)])
+
+
 TYPES = {'float64': 64, 'float32': 32, 'int32': 32, 'uint32': 32, 'int64': 64, 'uint64': 64, 'int': 64, 'uint': 64}
 WIDE = ('int', 'uint')      # Go types the binding maps to a narrower file type (known finding native-int-width)
 
@@ -428,7 +442,7 @@ def gen_big_case(rng, ty, n0, stats, stratum=None):
     sel = []
     for i, d in enumerate(dsd):
         if i == len(dsd) - 1:
-            sel.append([rng.randint(0, 50), d - rng.randint(0, 50) + rng.choice([0, 0, 200]), rng.choice([1, 2, 3, 997])])
+            sel.append([rng.randint(0, 50), rng.choice([d - rng.randint(0, 50), d, d + 200, MAXI, MAXI - 1]), rng.choice([1, 2, 3, 997])])
         else:
             sel.append(None if rng.random() < 0.4 else [rng.randint(0, 2), rng.randint(d - 1, d + 2), rng.randint(1, 2)])
     toks += ['LS', '@big', str(len(sel))]
@@ -663,6 +677,10 @@ def gen_sequence(rng, ty, nops, stats, malformed=False, reuse=False):
                             a = rng.randint(0, n + 1)
                             b = rng.randint(0, 9) if reuse else rng.randint(0, n + 3)
                             e = [a, b, rng.randint(1, 4)]
+                            if rng.random() < 0.2:                  # extreme values: open-ended stops, huge start / step
+                                st_ = rng.choice([1, 2, 3, 4, 5, 1 << 31, (1 << 32) + 1, 1 << 62, MAXI - 64])
+                                e = [rng.choice([0, 0, 1, 2, a, 1 << 31, 1 << 62, MAXI]), extreme_stop(rng, n, st_), st_]
+                                stats['extreme-entries'] = stats.get('extreme-entries', 0) + 1
                             sel.append(e)
                             eids.append(pool.add('entry', list(e)) if rng.random() < 0.6 else 0)
                 bad = None
@@ -769,11 +787,28 @@ def main():
     metas.append(('mh1all',))
     lines.append('SSALL 3 3 0 0 3')            # step 0: both sides panic
     metas.append(('ss0',))
-    # ---- random multi-axis makeHyperslab
-    for _ in range(60 if quick else 1500):
+    # ---- sliceSize on extreme arguments (near MaxInt64, 2^31, 2^32, huge start / step, a few negative): the whole product
+    ex_n = [0, 1, 2, 7, 10, 1000]
+    ex_list = []
+    for n in ex_n:
+        starts = [0, 1, 2, 3, 5, max(n - 1, 0), n, n + 1, 1 << 31, (1 << 32) + 1, 1 << 62, MAXI - 5, MAXI, -1, MINI]
+        steps = [1, 2, 3, 4, 5, 7, 1 << 31, (1 << 32) + 1, 1 << 62, MAXI - n, min(MAXI - n + 1, MAXI), MAXI - 1, MAXI, -1, -3]
+        for a in starts:
+            for s_ in steps:
+                stops = [0, 1, max(n - 1, 0), n, n + 1, 1 << 31, (1 << 32) - 1, (1 << 32) + 1, 1 << 62, MAXI - abs(s_), MAXI - 1, MAXI, -1, MINI]
+                for b in stops:
+                    ex_list.append((a, b, s_, n))
+    lines.append(' '.join(['SSLIST', str(len(ex_list))] + ['%d %d %d %d' % q for q in ex_list]))
+    metas.append(('sslist', ex_list))
+    # ---- random multi-axis makeHyperslab (a third of the entries with extreme stop / start / step)
+    for _ in range(90 if quick else 1500):
         r = rng.randint(1, 4)
         dims = [rng.randint(0, 10) for _ in range(r)]
         sel = [None if rng.random() < 0.3 else [rng.randint(0, 12), rng.randint(0, 12), rng.randint(1, 5)] for _ in range(r)]
+        for j, n in enumerate(dims):
+            if sel[j] is not None and rng.random() < 0.33:
+                st_ = rng.choice([1, 2, 3, 5, 1 << 31, 1 << 62, MAXI - n, min(MAXI - n + 1, MAXI), MAXI])
+                sel[j] = [rng.choice([0, 1, 2, n, 1 << 31, MAXI]), extreme_stop(rng, n, st_), st_]
         t = ['MH', str(r)]
         for s in sel:
             t += ['N'] if s is None else ['T'] + [str(x) for x in s]
@@ -795,6 +830,8 @@ def main():
             metas.append(('seq', ty, expect, spec, descr, malformed))
     impl = run_lines(bin_path('h5ops'), lines, env=GOENV)
     model = run_model(lines)
+    extreme = {'slicesize_points': 0, 'outside_theorem_hypotheses': 0, 'outside_and_not_the_mathematical_count': 0,
+               'makehyperslab_outside_hypotheses': 0, 'load_entries_with_extreme_values': stats.get('extreme-entries', 0)}
     n_ops = 0
     n_argmod = 0
     n_calls = 0
@@ -828,11 +865,37 @@ def main():
                         c.violation('makehyperslab_%d_%d_%d_%d.json' % (a, b, s, n),
                                     {'kind': 'makeHyperslab != (start, step, extent of in-memory slice, 1)', 'slice': [a, b, s], 'axis': n, 'got': x})
             continue
+        if kind == 'sslist':
+            vi, vm = li.split(), lm.split()
+            if len(vi) != len(meta[1]) or len(vm) != len(meta[1]):
+                c.corr_broken.append({'case': 'sslist', 'diff': 'result count impl=%d model=%d want=%d' % (len(vi), len(vm), len(meta[1])), 'impl': li[:200]})
+                continue
+            for (a, b, s_, n), x, y in zip(meta[1], vi, vm):
+                inside = ss_ok(a, b, s_, n)
+                c.count(('ssx', a, b, s_, n), nontrivial=inside)
+                extreme['slicesize_points'] += 1
+                if x != y and len(c.corr_broken) < 40:
+                    c.corr_broken.append({'case': ['sliceSize', a, b, s_, n], 'impl': x, 'model': y})
+                if not inside:
+                    extreme['outside_theorem_hypotheses'] += 1
+                    if s_ >= 1 and a >= 0 and b >= 0 and x != str(len(range(a, min(b, n), s_))):
+                        extreme['outside_and_not_the_mathematical_count'] += 1       # e.g. step > MaxInt64 - extent: extent+step-1 wraps (noted)
+                    continue
+                want = len(range(a, min(b, n), s_))
+                if x != str(want):
+                    c.violation('slicesize_extreme_%d.json' % extreme['slicesize_points'],
+                                {'kind': 'sliceSize != extent of the in-memory slice (arguments inside the hypotheses of C08_slice_size_spec)',
+                                 'slice': [a, b, s_], 'axis': n, 'sliceSize': x, 'in_memory_extent': want,
+                                 'case_line': 'SSLIST 1 %d %d %d %d' % (a, b, s_, n)})
+            continue
         if kind == 'mh':
             c.count(lines[i], nontrivial=True)
             if not agree:
                 c.corr_broken.append({'case': lines[i], 'impl': li, 'model': lm})
             _, sel, dims = meta
+            if not all(s is None or ss_ok(s[0], s[1], s[2], n) for s, n in zip(sel, dims)):
+                extreme['makehyperslab_outside_hypotheses'] += 1
+                continue
             want = ':'.join([','.join(str(0 if s is None else s[0]) for s in sel), ','.join(str(1 if s is None else s[2]) for s in sel),
                              ','.join(str(n if s is None else len(range(s[0], min(s[1], n), s[2]))) for s, n in zip(sel, dims)),
                              ','.join('1' for _ in sel)])
@@ -890,6 +953,8 @@ def main():
             c.sample({'type': ty, 'ops': descr, 'result_head': li[:160]})
     # ---- large blocks (judged by the Python abstract store only)
     big_info = large_blocks(c, rng, quick)
+    # ---- concurrent results (TESTING): loads with different selections at the same time, loads + writers; forced interleaving
+    concload = concurrent_results(c, quick)
     # ---- coqchk (thorough)
     chk = None
     if not quick and not c.proof_broken:
@@ -923,21 +988,57 @@ def main():
                      'snapshot of all its arguments (ARGUMENT-MODIFIED = violation); a large-blocks stream (element counts around 2^16, 2^20, 2^22, '
                      'stratified below/above the power of two x contiguous/strided source, 1-3 dims, odd first extents) is judged by the Python '
                      'abstract store through SHA-256 digests; '
+                     'sliceSize is also enumerated on the product of extreme values (stops MaxInt64, MaxInt64-1, MaxInt64-step, 2^62, 2^31, 2^32+-1; huge and negative '
+                     'starts / steps; n in {0,1,2,7,10,1000}): model-vs-code everywhere, oracle where the theorem hypotheses ss_ok hold; the same extremes '
+                     'enter a third of the random makeHyperslab cases and a fifth of the Load selection entries; a concurrent-results stream (8 goroutines, '
+                     'forced interleaving by a 200us delay in every fake-library call) checks that concurrent Loads with different selections and Loads '
+                     'concurrent with writers return what they return alone; '
                      'non-trivial = sequence contains a Load with selection or a WriteSlice / box point with start < min(stop,n)')
     c.finish(extra_cov={'exhaustive': True, 'exhaustive_scope': 'sliceSize/makeHyperslab box only; sequences are sampled',
                         'sequence_ops': n_ops, 'op_mix': {k: v for k, v in stats.items() if k != 'views'}, 'source_views': stats['views'],
-                        'lock_graph': lock_info, 'concurrency_testing': conc, 'coqchk': chk, 'large_blocks': big_info,
+                        'lock_graph': lock_info, 'concurrency_testing': conc, 'coqchk': chk, 'large_blocks': big_info, 'concurrent_results': concload, 'extreme_selection_values': extreme,
                         'argument_snapshot_oracle': {'calls_bracketed': n_calls, 'argument_modified_reports': n_argmod},
                         'source_view_checks': {'views_read_by_Get_and_by_Unroll': sum(v for k, v in stats['views'].items() if k not in ('single-element', 'series', 'column')), 'unroll_mismatch_sequences': n_unroll,
                                                'nested_or_reshaped_views': sum(v for k, v in stats['views'].items() if k.startswith('nested') or k == 'reshaped')}},
              assumptions=['libhdf5 + gonum binding replaced by harness/fakehdf5 (README.md there states the modelled hyperslab / transfer semantics); '
                           'the claim is about the Go I/O layer against that documented semantics',
                           'Unroll() of any source view is its row-major element list (property C02); the harness cross-checks it per case',
-                          'Go int arithmetic modelled on Z without overflow',
+                          'sliceSize is modelled with 64-bit wrap-around (go_int) and agrees with the code on every enumerated extreme argument; the theorems assume ss_ok '
+                          '(Go ints, start >= 0, step >= 1, n + step <= 2^63, stop >= MinInt64 + n; stop = MaxInt64 is inside); the other index arithmetic is on Z without overflow',
+                          'noted, not flagged: for step > MaxInt64 - extent the Go expression extent + step - 1 wraps and sliceSize returns 0 instead of 1 '
+                          '(outside ss_ok; counted in extreme_selection_values.outside_and_not_the_mathematical_count)',
                           'one element type per file (no cross-type loads); arrays with zero elements are outside the Write model',
                           'noted, not flagged: Load/WriteSlice drop the error of Read/WriteSubset (an out-of-extent WriteSlice returns nil and writes nothing); '
                           'Create ignores fillValue (zero fill); Create(compress=true) fails after creating the intermediate groups',
                           'concurrency run (thorough) is testing: 16 goroutines, -race, fake overlap detector'])
+
+
+def concurrent_results(c, quick):
+    """What a call returns must not depend on what other goroutines do at the same time: N goroutines Load the same and
+    different datasets (two files) with different selections simultaneously, then Loads run while other goroutines
+    Write / WriteSlice other datasets; every result must equal what the same Load returns alone (= the in-memory slice),
+    the written datasets must equal the sequential abstract store.  Every library call is stretched by 200 us
+    (fake layer) so that the interleaving is forced, not left to luck.  Thorough: also under -race."""
+    runs = []
+    plan = [('h5ops', 8, 24)] if quick else [('h5ops', 8, 24), ('h5ops', 16, 60), ('h5ops-race', 16, 40)]
+    for binary, n, rounds in plan:
+        if binary.endswith('-race'):
+            build_bins(['h5ops'], race=True)
+        cmd = [bin_path(binary), '-concload', str(n), '-rounds', str(rounds), '-seed', str(c.seed), '-delay', '200us']
+        try:
+            p = subprocess.run(cmd, stdout=subprocess.PIPE, stderr=subprocess.STDOUT, text=True, env=GOENV, timeout=900)
+            out, rc = p.stdout, p.returncode
+        except subprocess.TimeoutExpired as e:
+            out, rc = 'TIMEOUT (deadlock?) ' + str(e.stdout)[-500:], 124
+        last = [l for l in out.strip().split('\n') if l.startswith('CONCLOAD')][-1:] or [out[-300:]]
+        runs.append(last[0][:400])
+        c.count(('concload', binary, n, rounds), nontrivial=True)
+        if rc != 0 or 'DATA RACE' in out:
+            c.violation('concurrent_results_%s_%d.json' % (binary, n),
+                        {'kind': 'a result depends on concurrent callers: a Load returned something else than it returns alone, or a written '
+                                 'dataset differs from the sequential store, or the race detector fired',
+                         'replay': ' '.join(cmd), 'summary': last[0], 'output_tail': out[-3000:]})
+    return {'runs': runs, 'forced_interleaving': 'every fake-library call lasts >= 200us', 'testing_not_proof': True}
 
 
 def large_blocks(c, rng, quick):
